@@ -359,3 +359,36 @@ __CPROVER_ensures(g_prepares == 1 && g_splits == 1) /*@ C19 "the pairs are prepa
     harness='  BW* s; TE* te; BW__populate_formatted_named_args(s, te);',
     dropped=['the construction of the key/value vector (names, placeholders for surplus arguments) - one stub'], trusted=[], min_obligations=10)
 UNITS.append(fmt_named)
+
+# ------------------------------------------------------------------------------------------ _dispatch_transit_event_to_sinks: the two arms
+DA_PRELUDE = r'''
+typedef struct BW { int dummy; } BW;
+typedef struct TE { size_t g_n; char g_last; bool g_add_metadata; bool g_has_named_args; } TE;   /* message length, its last byte, the two switches */
+size_t g_multi, g_whole, g_whole_len;
+static inline size_t MSG_size(TE const* te) { return te->g_n; }
+static inline char MSG_at(TE const* te, size_t i) { __CPROVER_assert(i < te->g_n, "C12: the message is never read beyond its end"); char c; return i == te->g_n - 1 ? te->g_last : c; }
+void MULTI_LINE(BW* self, TE const* te) __CPROVER_assigns(g_multi) __CPROVER_ensures(g_multi == OLD(g_multi) + 1);
+void WRITE_WHOLE(BW* self, TE const* te, size_t len) __CPROVER_assigns(g_whole, g_whole_len) __CPROVER_ensures(g_whole == OLD(g_whole) + 1 && g_whole_len == len);
+'''
+dispatch_arm = dict(
+    name='BW.dispatch_arm', primary='C12', props={'C12'}, kind='S',
+    desc='BackendWorker::_dispatch_transit_event_to_sinks, the statement that chooses between per-line metadata and one whole statement: one statement with at most one trailing newline removed when the option is off (or named args are present)',
+    structs=[], prelude=DA_PRELUDE, enforce='BW_dispatch_arm', replace=['MULTI_LINE', 'WRITE_WHOLE'],
+    funcs=[dict(src=dict(header=H, cls='BackendWorker', name='_dispatch_transit_event_to_sinks', nth=0,
+                         stmt_re=r'if \(transit_event\.logger_base->pattern_formatter->get_options\(\)\.add_metadata_to_multi_line_logs.*_write_log_statement\([^;]*\);\s*\}'),
+                cfun='BW_dispatch_arm', sig='void BW_dispatch_arm(BW* self, TE const* transit_event)', cls_c='BW', member_fields=[],
+                pre_rules=[(r'transit_event\.logger_base->pattern_formatter->get_options\(\)\.add_metadata_to_multi_line_logs', 'transit_event->g_add_metadata', '!'),
+                           (r'\(\s*!transit_event\.named_args\s*\|\|\s*transit_event\.named_args->empty\(\)\s*\)', '(!transit_event->g_has_named_args)', '!'),
+                           (r'transit_event\.formatted_msg->size\(\)', 'MSG_size(transit_event)'),
+                           (r'transit_event\.formatted_msg->data\(\)\[(.*?)\]', r'MSG_at(transit_event, \1)'),
+                           (r'_process_multi_line_message\s*\([^;]*\)\s*;', 'MULTI_LINE(self, transit_event);'),
+                           (r'_write_log_statement\s*\([^;]*?std::string_view\{transit_event\.formatted_msg->data\(\),\s*(.*?)\}\s*\)\s*;', r'WRITE_WHOLE(self, transit_event, \1);')],
+                contract=r'''
+__CPROVER_requires(__CPROVER_is_fresh(self, sizeof(*self)) && __CPROVER_is_fresh(transit_event, sizeof(TE)) && g_multi == 0 && g_whole == 0)
+__CPROVER_assigns(g_multi, g_whole, g_whole_len)
+__CPROVER_ensures((transit_event->g_add_metadata && !transit_event->g_has_named_args) ==> (g_multi == 1 && g_whole == 0)) /*@ C12 "with add_metadata_to_multi_line_logs (and no named args) the message goes through the line splitter, once" */
+__CPROVER_ensures(!(transit_event->g_add_metadata && !transit_event->g_has_named_args) ==> (g_multi == 0 && g_whole == 1 && g_whole_len == transit_event->g_n - ((transit_event->g_n > 0 && transit_event->g_last == '\n') ? 1 : 0))) /*@ C12 "otherwise one statement: the whole message with at most one trailing newline removed" */
+''')],
+    harness='  BW* s; TE* te; BW_dispatch_arm(s, te);',
+    dropped=['message bytes other than the last one', 'statement attributes passed through', 'the pattern-formatter lookup/creation at the top of the function (not part of the slice)'], trusted=[], min_obligations=8)
+UNITS.append(dispatch_arm)
